@@ -69,6 +69,10 @@ theorem eBit_frag0 (c : DChunk) (first last : Bool) (h : c.flags = fragFlags 0 f
 theorem uBit_frag0 (c : DChunk) (first last : Bool) (h : c.flags = fragFlags 0 first last) : c.uBit = false := by
   cases first <;> cases last <;> simp [DChunk.uBit, h, fragFlags] <;> decide
 
+theorem deliverTo_open (s : Pl) (dc : Chan) (c : DChunk) (h : dc.state = 1) : deliverTo s dc c = deliverTo' s dc c := by
+  unfold deliverTo openOnce
+  simp [h]
+
 /-- in-order arrival at a stream with nothing pending: delivered at once -/
 theorem enqueue_inorder (n : UInt16) (m : Bytes) : (InStream.mk n []).enqueue n m = (⟨n + 1, []⟩, [m]) := by
   simp [InStream.enqueue, InStream.drainReady, InStream.drainGo, InStream.insert, InStream.remove, InStream.get?]
@@ -139,7 +143,8 @@ def fragChunk (sid : UInt16) (ppid : UInt32) (ssn : UInt16) (f : UInt8 × Bytes)
 theorem fragRun (mps : Nat) (hmps : 0 < mps) (sid : UInt16) (ppid : UInt32) (ssn : UInt16) :
     ∀ (fuel : Nat) (first : Bool) (rest : Bytes) (pl : Pl) (dc : Chan) (t : UInt32),
       rest ≠ [] → rest.length ≤ fuel →
-      findChan pl.chans sid = some dc → dc.ordered = true → getStream pl.streams sid = ⟨ssn, []⟩ →
+      findChan pl.chans sid = some dc → dc.ordered = true → dc.state = 1 → getStream pl.streams sid = ⟨ssn, []⟩ →
+      (first = false → dc.reasm ≠ []) →
       ∃ pl', pl' = plRun procDataP pl (assignTsn t ((fragGo mps 0 fuel first rest).map (fragChunk sid ppid ssn))) ∧
         findChan pl'.chans sid = some (dc.delivered ((if first then [] else dc.reasm) ++ rest)) ∧
         getStream pl'.streams sid = ⟨ssn + 1, []⟩ := by
@@ -149,12 +154,21 @@ theorem fragRun (mps : Nat) (hmps : 0 < mps) (sid : UInt16) (ppid : UInt32) (ssn
     intro first rest pl dc t hne hl
     exact absurd (List.eq_nil_of_length_eq_zero (by omega)) hne
   | succ f ih =>
-    intro first rest pl dc t hne hl hfind hord hstr
+    intro first rest pl dc t hne hl hfind hord hst hstr hre
     have hemp : rest.isEmpty = false := by
       cases rest with
       | nil => exact absurd rfl hne
       | cons _ _ => rfl
     have hid := findChan_id _ _ _ hfind
+    have hdrop0 : ∀ b : Bool, b = first → (!b && dc.reasm.isEmpty) = false := by
+      intro b hb
+      cases first with
+      | true => simp [hb]
+      | false =>
+        have := hre rfl
+        cases hr : dc.reasm with
+        | nil => exact absurd hr this
+        | cons _ _ => simp [hb]
     by_cases hlast : min rest.length mps ≥ rest.length
     · -- last fragment
       have hn : min rest.length mps = rest.length := by omega
@@ -164,7 +178,7 @@ theorem fragRun (mps : Nat) (hmps : 0 < mps) (sid : UInt16) (ppid : UInt32) (ssn
       have hb := bBit_frag0 { tsn := t, flags := fragFlags 0 first true, sid := sid, ssn := ssn, ppid := ppid, data := rest } first true rfl
       have he := eBit_frag0 { tsn := t, flags := fragFlags 0 first true, sid := sid, ssn := ssn, ppid := ppid, data := rest } first true rfl
       have hu := uBit_frag0 { tsn := t, flags := fragFlags 0 first true, sid := sid, ssn := ssn, ppid := ppid, data := rest } first true rfl
-      simp only [procDataP, procData, fragChunk, hfind, deliverTo, hb, he, hu, hord, hstr, enqueue_inorder,
+      simp only [procDataP, procData, fragChunk, hfind, deliverTo_open _ dc _ hst, deliverTo', hb, hdrop0 first rfl, he, hu, hord, hstr, enqueue_inorder,
         Bool.not_true, Bool.or_self, Bool.false_eq_true, if_false, if_true]
       constructor
       · rw [findChan_setChan_same _ _ _ _ hfind (by simp [Chan.emitAll, hid])]
@@ -179,7 +193,7 @@ theorem fragRun (mps : Nat) (hmps : 0 < mps) (sid : UInt16) (ppid : UInt32) (ssn
       have he := eBit_frag0 { tsn := t, flags := fragFlags 0 first false, sid := sid, ssn := ssn, ppid := ppid, data := rest.take mps } first false rfl
       let dc1 : Chan := { dc with reasm := (if first then [] else dc.reasm) ++ rest.take mps }
       have hstep : (procDataP pl { tsn := t, flags := fragFlags 0 first false, sid := sid, ssn := ssn, ppid := ppid, data := rest.take mps }).1 = { pl with chans := setChan pl.chans dc1 } := by
-        simp only [procDataP, procData, hfind, deliverTo, hb, he, Bool.false_eq_true, if_false, dc1]
+        simp only [procDataP, procData, hfind, deliverTo_open _ dc _ hst, deliverTo', hb, hdrop0 first rfl, he, Bool.false_eq_true, if_false, dc1]
       have hfind1 : findChan (setChan pl.chans dc1) sid = some dc1 :=
         findChan_setChan_same _ _ _ _ hfind (by simp [dc1, hid])
       have hdrop : rest.drop mps ≠ [] := by
@@ -187,7 +201,16 @@ theorem fragRun (mps : Nat) (hmps : 0 < mps) (sid : UInt16) (ppid : UInt32) (ssn
         have := congrArg List.length h
         simp at this; omega
       obtain ⟨pl', hpl', h1, h2⟩ := ih false (rest.drop mps) { pl with chans := setChan pl.chans dc1 } dc1 (t + 1)
-        hdrop (by simp; omega) hfind1 hord hstr
+        hdrop (by simp; omega) hfind1 hord hst hstr (by
+          intro _
+          have htk : rest.take mps ≠ [] := by
+            cases rest with
+            | nil => exact absurd rfl hne
+            | cons r rs => cases mps with
+              | zero => omega
+              | succ m => simp
+          simp only [dc1]
+          exact List.append_ne_nil_of_right_ne_nil _ htk)
       refine ⟨pl', ?_, ?_, h2⟩
       · rw [hpl']
         simp only [fragChunk] at hstep ⊢
@@ -202,7 +225,7 @@ theorem flags3 (c : DChunk) (h : c.flags = (0 : UInt8) ||| 0x03) : c.bBit = true
 /-- one whole message sent on an ordered channel, processed in order, is delivered as is -/
 theorem msgRun (mps : Nat) (hmps : 0 < mps) (sid : UInt16) (ppid : UInt32) (ssn : UInt16) (m : Bytes)
     (pl : Pl) (dc : Chan) (t : UInt32)
-    (hfind : findChan pl.chans sid = some dc) (hord : dc.ordered = true)
+    (hfind : findChan pl.chans sid = some dc) (hord : dc.ordered = true) (hst : dc.state = 1)
     (hstr : getStream pl.streams sid = ⟨ssn, []⟩) :
     ∃ pl', pl' = plRun procDataP pl (assignTsn t ((fragMsg mps 0 m).map (fragChunk sid ppid ssn))) ∧
       findChan pl'.chans sid = some (dc.delivered m) ∧ getStream pl'.streams sid = ⟨ssn + 1, []⟩ := by
@@ -212,8 +235,8 @@ theorem msgRun (mps : Nat) (hmps : 0 < mps) (sid : UInt16) (ppid : UInt32) (ssn 
     obtain ⟨hb, he, hu⟩ := flags3 { tsn := t, flags := (0 : UInt8) ||| 0x03, sid := sid, ssn := ssn, ppid := ppid, data := [] } rfl
     refine ⟨_, rfl, ?_⟩
     simp only [fragMsg, List.isEmpty_nil, if_true, List.map_cons, List.map_nil, assignTsn, plRun_cons, plRun_nil,
-      procDataP, procData, fragChunk, hfind, deliverTo, hb, he, hu, hord, hstr, enqueue_inorder,
-      Bool.not_true, Bool.or_self, Bool.false_eq_true, if_false]
+      procDataP, procData, fragChunk, hfind, deliverTo_open _ dc _ hst, deliverTo', hb, he, hu, hord, hstr, enqueue_inorder,
+      Bool.not_true, Bool.or_self, Bool.false_eq_true, Bool.false_and, if_false]
     constructor
     · rw [findChan_setChan_same _ _ _ _ hfind (by simp [Chan.emitAll, hid])]
       simp [Chan.emitAll, Chan.delivered, hord]
@@ -222,22 +245,45 @@ theorem msgRun (mps : Nat) (hmps : 0 < mps) (sid : UInt16) (ppid : UInt32) (ssn 
       cases m with
       | nil => exact absurd rfl hm
       | cons _ _ => rfl
-    obtain ⟨pl', h1, h2, h3⟩ := fragRun mps hmps sid ppid ssn m.length true m pl dc t hm (Nat.le_refl _) hfind hord hstr
+    obtain ⟨pl', h1, h2, h3⟩ := fragRun mps hmps sid ppid ssn m.length true m pl dc t hm (Nat.le_refl _) hfind hord hst hstr (by simp)
     refine ⟨pl', ?_, ?_, h3⟩
     · simp only [fragMsg, hemp, Bool.false_eq_true, if_false]; exact h1
     · simpa using h2
 
 /-! ### monotonicity: processing only appends events -/
 
-theorem deliverTo_chans (pl : Pl) (d : Chan) (c : DChunk) :
-    ∃ d', (deliverTo pl d c).chans = setChan pl.chans d' ∧ d'.id = d.id ∧ d.events <+: d'.events := by
-  unfold deliverTo
+theorem deliverTo'_chans (pl : Pl) (d : Chan) (c : DChunk) :
+    (deliverTo' pl d c).chans = pl.chans ∨
+    ∃ d', (deliverTo' pl d c).chans = setChan pl.chans d' ∧ d'.id = d.id ∧ d.events <+: d'.events := by
+  unfold deliverTo'
   simp only []
   split
-  · split
-    · exact ⟨_, rfl, rfl, by simp [Chan.emit]⟩
-    · exact ⟨_, rfl, rfl, by simp [Chan.emitAll]⟩
-  · exact ⟨_, rfl, rfl, List.prefix_refl _⟩
+  · left; rfl
+  · right
+    split
+    · split
+      · exact ⟨_, rfl, rfl, by simp [Chan.emit]⟩
+      · exact ⟨_, rfl, rfl, by simp [Chan.emitAll]⟩
+    · exact ⟨_, rfl, rfl, List.prefix_refl _⟩
+
+theorem openOnce_mono (d : Chan) : (openOnce d).id = d.id ∧ d.events <+: (openOnce d).events := by
+  unfold openOnce
+  split
+  · exact ⟨rfl, by simp [Chan.emit]⟩
+  · exact ⟨rfl, List.prefix_refl _⟩
+
+theorem deliverTo_chans (pl : Pl) (d : Chan) (c : DChunk) :
+    (deliverTo pl d c).chans = pl.chans ∨
+    ∃ d', (deliverTo pl d c).chans = setChan pl.chans d' ∧ d'.id = d.id ∧ d.events <+: d'.events := by
+  unfold deliverTo
+  split
+  · cases deliverTo'_chans pl (openOnce d) c with
+    | inl h => left; exact h
+    | inr h =>
+      obtain ⟨d', h1, h2, h3⟩ := h
+      right
+      exact ⟨d', h1, h2.trans (openOnce_mono d).1, List.IsPrefix.trans (openOnce_mono d).2 h3⟩
+  · exact deliverTo'_chans pl d c
 
 theorem procData_mono (pl : Pl) (c : DChunk) (sid : UInt16) (dc : Chan) (h : findChan pl.chans sid = some dc) :
     ∃ dc', findChan (procData pl c).chans sid = some dc' ∧ dc.events <+: dc'.events := by
@@ -246,16 +292,19 @@ theorem procData_mono (pl : Pl) (c : DChunk) (sid : UInt16) (dc : Chan) (h : fin
   | none => exact ⟨dc, h, List.prefix_refl _⟩
   | some d =>
     simp only []
-    obtain ⟨d', h1, h2, h3⟩ := deliverTo_chans pl d c
-    have hdid := findChan_id _ _ _ hf
-    rw [h1]
-    by_cases hs : c.sid = sid
-    · rw [hs] at hf
-      have : d = dc := Option.some.inj (hf.symm.trans h)
-      subst this
-      exact ⟨d', findChan_setChan_same _ _ _ _ h (by rw [h2, hdid, hs]), h3⟩
-    · rw [findChan_setChan_other _ _ _ (by rw [h2, hdid]; exact hs)]
-      exact ⟨dc, h, List.prefix_refl _⟩
+    cases deliverTo_chans pl d c with
+    | inl h0 => rw [h0]; exact ⟨dc, h, List.prefix_refl _⟩
+    | inr h1' =>
+      obtain ⟨d', h1, h2, h3⟩ := h1'
+      have hdid := findChan_id _ _ _ hf
+      rw [h1]
+      by_cases hs : c.sid = sid
+      · rw [hs] at hf
+        have : d = dc := Option.some.inj (hf.symm.trans h)
+        subst this
+        exact ⟨d', findChan_setChan_same _ _ _ _ h (by rw [h2, hdid, hs]), h3⟩
+      · rw [findChan_setChan_other _ _ _ (by rw [h2, hdid]; exact hs)]
+        exact ⟨dc, h, List.prefix_refl _⟩
 
 theorem plRun_mono (cs : List DChunk) : ∀ (pl : Pl) (sid : UInt16) (dc : Chan), findChan pl.chans sid = some dc →
     ∃ dc', findChan (plRun procDataP pl cs).chans sid = some dc' ∧ dc.events <+: dc'.events := by
@@ -321,23 +370,23 @@ theorem sendDataRaw_ordered (cs : List TxChan) (sid : UInt16) (ppid : UInt32) (d
 theorem sendAll_run (sid : UInt16) (ppid : UInt32) (hp : ppid.toNat ≠ dcPpidDcep) :
     ∀ (msgs : List Bytes) (cs : List TxChan) (tc : TxChan) (pl : Pl) (dc : Chan) (t : UInt32),
       findTx cs sid = some tc → tc.ordered = true → 0 < tc.maxPayload →
-      findChan pl.chans sid = some dc → dc.ordered = true →
+      findChan pl.chans sid = some dc → dc.ordered = true → dc.state = 1 →
       getStream pl.streams sid = ⟨tc.nextSsn, []⟩ →
       ∃ dc', findChan (plRun procDataP pl (assignTsn t (sendAll cs sid ppid msgs).2)).chans sid = some dc' ∧
         dc'.events = dc.events ++ msgs.map ChanEv.msg := by
   intro msgs
   induction msgs with
-  | nil => intro cs tc pl dc t _ _ _ h _ _; exact ⟨dc, by simpa [sendAll, assignTsn] using h, by simp⟩
+  | nil => intro cs tc pl dc t _ _ _ h _ _ _; exact ⟨dc, by simpa [sendAll, assignTsn] using h, by simp⟩
   | cons m rest ih =>
-    intro cs tc pl dc t hf ho hmp hfind hord hstr
+    intro cs tc pl dc t hf ho hmp hfind hord hst hstr
     obtain ⟨hs1, hs2⟩ := sendDataRaw_ordered cs sid ppid m tc hf ho hp
     have hmps : 0 < min tc.maxPayload sctpMaxPayload := by simp; omega
-    obtain ⟨pl1, hpl1, hc1, hst1⟩ := msgRun _ hmps sid ppid tc.nextSsn m pl dc t hfind hord hstr
+    obtain ⟨pl1, hpl1, hc1, hst1⟩ := msgRun _ hmps sid ppid tc.nextSsn m pl dc t hfind hord hst hstr
     have hid := findTx_id _ _ _ hf
     have hf1 : findTx (sendDataRaw cs sid ppid m).1 sid = some { tc with nextSsn := tc.nextSsn + 1 } := by
       rw [hs1]; exact findTx_setTx_same _ _ _ _ hf (by simp [hid])
     obtain ⟨dc', h1, h2⟩ := ih (sendDataRaw cs sid ppid m).1 { tc with nextSsn := tc.nextSsn + 1 } pl1 (dc.delivered m)
-      (t + UInt32.ofNat (sendDataRaw cs sid ppid m).2.length) hf1 ho hmp hc1 (by simpa [Chan.delivered] using hord) hst1
+      (t + UInt32.ofNat (sendDataRaw cs sid ppid m).2.length) hf1 ho hmp hc1 (by simpa [Chan.delivered] using hord) (by simpa [Chan.delivered] using hst) hst1
     refine ⟨dc', ?_, ?_⟩
     · simp only [sendAll]
       rw [assignTsn_append, plRun_append, hs2 t, ← hpl1]
